@@ -252,7 +252,7 @@ Proof.
     pose proof (probe_all_ainv (jr_pkg it) cands st cached H) as Hp.
     destruct (probe_all W st (jr_pkg it) cands cached) as [st1 cached']. exact Hp. }
   destruct pr as [[st1 memo1] cached]. cbn [fst] in Hpr.
-  destruct (resolve_version W (jr_req it) versions (versions_by_name (js_pkgs st1) (jr_pkg it)) cached) as [[v yanked]|].
+  destruct (resolve_version W (jr_req it) versions (versions_by_name (js_pkgs st1) (jr_pkg it)) cached (late_of W (jr_pkg it))) as [[v yanked]|].
   - apply IH. apply ainv_queue_ver. aext Hpr.
   - destruct (js_busting st1); [apply IH; apply ainv_set_err; exact Hpr | exact Hpr].
 Qed.
